@@ -14,6 +14,7 @@ import Fir.Proofs.IdealLemmas
 import Fir.Proofs.ImageLemmas
 import Fir.Proofs.TwoPassLemmas
 import Fir.Proofs.IdealFilterLemmas
+import Fir.Proofs.FloatLemmas
 
 namespace Fir.C10
 open Fir
@@ -224,6 +225,28 @@ theorem qCatmull_at_integers : qCatmull 0 = 1 ∧ qCatmull 1 = 0 ∧ qCatmull 2 
 open Fir.Spec in
 theorem qMitchell_at_integers : qMitchell 0 = 8 / 9 ∧ qMitchell 1 = 1 / 18 ∧ qMitchell 2 = 0 :=
   Fir.Proofs.qMitchell_at_integers 
+
+/-! ### I32 and the float formats -/
+
+open Fir.Flt in
+/-- a constant row `v` through the f64 accumulation (any summation order) comes out as `v` up to the
+    accumulated rounding `γ(depth)·|v|·Σ|kᵢ|` and the defect `|v|·|Σkᵢ − 1|` of the f64 weights from a
+    partition of unity (checked per geometry on the implementation's weights: ≤ 1e-9, in fact ≤ n·2^-53).
+    For I32 the final `round()` absorbs it whenever the total is below 1/2; for F32 it is below one ulp
+    of `v` (2^-24·|v|) as soon as `γ·Σ|k| + |Σk − 1| < 2^-25` -/
+theorem uniform_float (fl : ℚ → ℚ) (u : ℚ) (hu : 0 ≤ u) (hfl : RelErr fl u) (v : ℚ) (k : ℕ → ℚ) (t : Shape) :
+    |t.eval fl (fun _ => v) k - v| ≤ gam u t.depth * (|v| * t.kAbs k) + |v| * |t.kSum k - 1| :=
+  Fir.Flt.uniform_float fl u hu hfl v k t
+
+/-- I32: if the accumulated value is within less than 1/2 of the integer `v`, every integer nearest to it is `v` -/
+theorem uniform_i32 (v r : ℤ) (s : ℚ) (hs : |s - v| < 1 / 2) (hr : |(r : ℚ) - s| ≤ 1 / 2) : r = v := by
+  rw [abs_lt] at hs
+  rw [abs_le] at hr
+  have h1 : ((r - v : ℤ) : ℚ) < 1 := by push_cast; linarith
+  have h2 : (-1 : ℚ) < ((r - v : ℤ) : ℚ) := by push_cast; linarith
+  have h1' : r - v < 1 := by exact_mod_cast h1
+  have h2' : -1 < r - v := by exact_mod_cast h2
+  omega
 
 /-! ### non-vacuity -/
 example : QuantOK [4096, 8192, 4096] 14 255 := by decide
